@@ -239,6 +239,15 @@ fn gen_history(seed: u64, steps: usize) -> Vec<Step> {
     // a small pool of prefix-related byte strings shared by keys, elements and values
     let mut pool: Vec<Vec<u8>> = vec![vec![], vec![0], vec![1], vec![1, 2], vec![1, 2, 3], vec![2, 3], vec![3], vec![0xFF], vec![0xFF, 0xFF], vec![0xFF, 0], vec![0, 0xFF]];
     for _ in 0..3 { let n = r.range(1, 9) as usize; pool.push((0..n).map(|_| (r.next() & 0xFF) as u8).collect()); }
+    // neighbours across the scan bound: base ++ [b, 0xFF..] and its successor base ++ [b+1, x..] (same length)
+    for _ in 0..2 {
+        let mut base: Vec<u8> = (0..r.range(0, 2)).map(|_| (r.next() & 0xFF) as u8).collect();
+        let b = r.below(255) as u8;
+        let tail = r.range(1, 3) as usize;
+        let mut k1 = base.clone(); k1.push(b); k1.extend(std::iter::repeat(0xFF).take(tail));
+        base.push(b + 1); base.extend((0..tail).map(|_| (r.next() & 0xFF) as u8));
+        pool.push(k1); pool.push(base);
+    }
     let mut out = Vec::new();
     let mut touched_w: Vec<(usize, K)> = Vec::new();
     let mut touched_s: Vec<(usize, K)> = Vec::new();
@@ -255,19 +264,35 @@ fn gen_history(seed: u64, steps: usize) -> Vec<Step> {
             }
         }
     };
+    if r.chance(1, 2) {
+        // directed opening: members under keys that are neighbours across the scan bound,
+        // prefixes and extensions of one another, in one set column; then scan each
+        let s = *r.pick(&[0usize, 3, 1]);
+        let n = pool.len();
+        let mut keys: Vec<K> = Vec::new();
+        for j in (n - 4)..n { keys.push(match SETS[s].0 { 0 => K::B(pool[j].clone()), _ => K::P(pool[j].clone(), pool[(j + 1) % n].clone()) }); }
+        for j in [1usize, 3, 4, 7] { keys.push(match SETS[s].0 { 0 => K::B(pool[j].clone()), _ => K::P(pool[j].clone(), pool[j - 1].clone()) }); }
+        for key in &keys {
+            for _ in 0..r.range(1, 3) {
+                let e = gen_elem(&mut r, SETS[s].1, &pool);
+                out.push(Step::Stage(2, LOp::Ins { s, key: key.clone(), e }));
+                touched_s.push((s, key.clone()));
+            }
+        }
+        out.push(Step::Commit(2));
+        for key in &keys { out.push(Step::Scan { s, key: key.clone() }); }
+    }
     while out.len() < steps {
         match r.below(20) {
             0..=11 => {
                 let i = r.below(3) as usize;
                 let op = if r.chance(1, 2) {
-                    let c = r.below(WIDE.len() as u64) as usize;
-                    let key = if !touched_w.is_empty() && r.chance(1, 3) { let (c2, k) = r.pick(&touched_w).clone(); if c2 == c { k } else { gen_key(&mut r, WIDE[c].0, &pool) } } else { gen_key(&mut r, WIDE[c].0, &pool) };
+                    let (c, key) = if !touched_w.is_empty() && r.chance(1, 2) { r.pick(&touched_w).clone() } else { let c = r.below(WIDE.len() as u64) as usize; (c, gen_key(&mut r, WIDE[c].0, &pool)) };
                     let v = r.below(WIDE[c].1 as u64) as usize;
                     touched_w.push((c, key.clone()));
                     if r.chance(3, 4) { LOp::Put { c, v, key, val: gen_bytes(&mut r, &pool, true) } } else { LOp::Del { c, v, key } }
                 } else {
-                    let s = r.below(SETS.len() as u64) as usize;
-                    let key = if !touched_s.is_empty() && r.chance(1, 2) { let (s2, k) = r.pick(&touched_s).clone(); if s2 == s { k } else { gen_key(&mut r, SETS[s].0, &pool) } } else { gen_key(&mut r, SETS[s].0, &pool) };
+                    let (s, key) = if !touched_s.is_empty() && r.chance(2, 3) { r.pick(&touched_s).clone() } else { let s = r.below(SETS.len() as u64) as usize; (s, gen_key(&mut r, SETS[s].0, &pool)) };
                     let e = gen_elem(&mut r, SETS[s].1, &pool);
                     touched_s.push((s, key.clone()));
                     if r.chance(3, 4) { LOp::Ins { s, key, e } } else { LOp::Rem { s, key, e } }
@@ -511,7 +536,19 @@ fn fresh_dir(work: &Path, name: &str) -> PathBuf {
     std::fs::create_dir_all(&p).unwrap();
     p
 }
+/// a panic inside a backend (e.g. a store that rejects a key) is a failure of that history
 fn one_history(work: &Path, backend: &str, hseed: u64, steps: usize) -> (String, Vec<String>, HistStats, f64) {
+    let res = std::panic::catch_unwind(std::panic::AssertUnwindSafe(|| one_history_inner(work, backend, hseed, steps)));
+    match res {
+        Ok(x) => x,
+        Err(e) => {
+            let msg = e.downcast_ref::<String>().cloned().or_else(|| e.downcast_ref::<&str>().map(|s| s.to_string())).unwrap_or_else(|| "?".into());
+            let _ = std::fs::remove_dir_all(work.join(format!("{backend}_{hseed}")));
+            ("Hist Rocks [] []".into(), vec![format!("the backend panicked: {msg}")], HistStats::default(), 0.0)
+        }
+    }
+}
+fn one_history_inner(work: &Path, backend: &str, hseed: u64, steps: usize) -> (String, Vec<String>, HistStats, f64) {
     let hist = gen_history(hseed, steps);
     let dir = fresh_dir(work, &format!("{backend}_{hseed}"));
     let t0 = Instant::now();
@@ -542,6 +579,7 @@ fn main() {
             std::process::exit(if fails.is_empty() { 0 } else { 1 });
         }
         "run" => {
+            if std::env::var("QV_PANIC_TRACE").is_err() { std::panic::set_hook(Box::new(|_| {})); }
             let out_dir = PathBuf::from(&args[2]);
             let work = PathBuf::from(&args[3]);
             let seed: u64 = args[4].parse().unwrap();
